@@ -142,7 +142,7 @@ PROPS = {
             "'eventually delivered' only under fairness: a connection eventually stays up until the buffer is written and the replies are read (theorem delivered_if_connection_stays_up states the schedule)",
             "mpsc capacity (1000) only blocks the caller, not modelled; half-open TCP (peer dies without FIN/RST) is outside the model",
             "is_closed is checked when a write starts: a handle dropped while its write is blocked does not stop that one write",
-            "first-transmission order is proved in step form (first_transmissions_in_handover_order_partial); the whole-trace form is checked by the engine's monitor only",
+            "first deliveries are first TRANSMISSIONS in the model (a frame written on a connection); what the peer application reads from the socket is below the model (the engine's monitor checks deliveries to a reading peer)",
         ],
         "explanation": "Theorems over every event sequence of the Connection model (order, ACK pairing, no loss, cancellation, retransmission on reconnect, back-off bounds); engine `sender` drives the real ReliableSender against a scripted simnet peer and the real Receiver under virtual time, "
                        "compares per-connection frame lists / connection count / handle results with the model after every op, and runs the C14 monitor on the real observations.",
@@ -224,8 +224,9 @@ PROPS = {
     "C15": {
         "lean_modules": ['HotstuffModel.Properties.C15', 'HotstuffModel.Properties.C15_decode'],
         "engines": [{'name': 'codec'}, {'name': 'cons'}, {'name': 'fuzz'}],
+        "panic_inventory": True,
         "level": "proof",
-        "level_text": 'PARTIAL: proof of panic-freedom of the models + differential/fuzz tie; Rust panics that are not source-visible (overflow, OOM) are not covered.',
+        "level_text": 'PARTIAL: proof of panic-freedom of the models + panic-site inventory of the source (every expect/unwrap/panic!/index site classified, re-scanned on every run) + differential/fuzz tie; Rust panics that are not source-visible (integer overflow, allocation failure, select! with all branches disabled at shutdown) are not covered.',
         "trusted_base": TB_COMMON + [
             "ideal signatures and collision-free digests (DESIGN 3.4): ed25519 and SHA-512 are modelled, not verified",
             "tokio mpsc channels are FIFO, select! picks any ready branch, a task handles one message at a time; the micro-step model over-approximates every schedule",
@@ -267,7 +268,7 @@ PROPS = {
         "lean_modules": ['HotstuffModel.Properties.C07'],
         "engines": [{'name': 'netsim'}, {'name': 'cons'}],
         "level": "proof",
-        "level_text": 'PARTIAL: machine-checked protocol lemmas + simulation of catch-up on the real code.',
+        "level_text": 'PARTIAL: machine-checked protocol lemmas, and the safety half of convergence (delivery logs of honest nodes are prefixes of one another in every reachable global state: never_diverges); that a reconnected node DOES catch up is a liveness statement, explored by simulation on the real code.',
         "trusted_base": TB_COMMON + [
             "ideal signatures and collision-free digests (DESIGN 3.4): ed25519 and SHA-512 are modelled, not verified",
             "netsim engine: real nodes (real node.rs wiring) on the in-memory simnet transport under tokio's paused virtual clock; harness proxies model links (latency >= 5 ms, cuts hang connections, no loss on healthy links)",
